@@ -26,7 +26,7 @@ VER_ATTRS = [S('1.0.0'), S('1.9.0'), S('1.10.0'), S('2.0.0'), S('1.0.0-beta'), S
              S('18446744073709551616.0.0'), S('1.0.0-a_b'), S('1..0'), S(' 1.0.0'), S('1.0.0-rc.1'), S('1.0.0-rc.1.1'), S('0.0.0')]
 STRINGER_ATTRS = [('str', b'abc'), ('str', b'ABC'), ('str', b'1.0.0'), ('str', b''), ('strptr', b'abc'), ('strpanic',), ('strnilptr',), ('strselfpanic',),
                   ('jnum', b'12'), ('jnum', b'2.25'), ('jnum', b'1'), ('jnum', b'abc')]
-MISC_ATTRS = [('nil',), ('b', True), ('b', False), ('m', []), ('m', [(b'a', I(1))]), ('nilmap',)] + [('o', t) for t in list(range(21)) + [22, 23, 24, 25, 26, 27, 29, 30, 31, 32]]
+MISC_ATTRS = [('nil',), ('b', True), ('b', False), ('m', []), ('m', [(b'a', I(1))]), ('nilmap',)] + [('o', t) for t in list(range(21)) + [22, 23, 24, 25, 26, 27, 29, 30, 31, 32, 33, 34]]
 ABSENT = ('absent',)   # pseudo value: key not in the object
 
 ALL_ATTRS = [ABSENT] + MISC_ATTRS + INT_ATTRS + FLOAT_ATTRS + STR_ATTRS + VER_ATTRS + STRINGER_ATTRS
@@ -337,6 +337,8 @@ FIXED_TEXTS = [
     'x eq 1 and\ny eq 2', ' x eq 1', 'x eq 1 ', 'x eq 1\n', '\tx eq 1', 'x eq 1 \n', ' x eq 1 ', 'x eq 1', 'x eq true', 'x eq TRUE', 'x eq True',
     'x eq null', 'x eq NULL', 'x EQ 1', 'x Eq 1', 'x == 1', 'x = 1', 'x != 1', 'x ! = 1', 'x in 1', 'x IN [1]', 'x In [1]', 'x co "a"', 'x CO "a"', 'x Co "a"',
     'x eq 1 and y', 'x and y', 'x eq 1 and and y eq 2', 'x eq 1 or or y eq 2', '()', '( )', 'not ()', 'x eq (1)', 'x eq 1.0e5', 'x eq 1.0e', 'x eq 1.e5',
+    'x eq 1 \r\nand y eq 2', 'x eq 1 or \r\ny eq 2', 'x eq \r\n1', 'x \r\n\r\npr', 'x eq 1 \rand y eq 2', 'x eq 1\r\n', '\r\nx eq 1', 'x eq 1 \n\rand y eq 2', 'not ( \r\nx eq 1 \r\n)',
+    'x eq 1 \tand y eq 2', 'x\teq 1', 'x eq 1 \x0cand y eq 2', 'x eq 1 \x0band y eq 2', 'x\u00a0eq 1', 'x eq 1 \u2028and y eq 2', 'x eq 1 \u0085and y eq 2', 'x eq\n1', 'x eq 1\nand y eq 2',
     'x eq 0.5', 'x eq .5', 'x eq 00.5', 'x eq 0', 'x eq 00', 'x eq -0', 'x eq 0.0.0', 'x eq 1.02.3', 'x.y.z.w pr', 'x.y. pr', '.x pr', 'x pr pr', 'x eq 1 pr',
 ]
 
